@@ -219,6 +219,8 @@ def s2_tasks(tier):
     ts += [dict(src='labeldiff', k=k) for k in range(0, 9)]
     ts += [dict(src='shadow')]
     ts += [dict(src='nearlabel', part=i, parts=64) for i in range(64)]
+    # the literal pseudo-instructions (li over its whole structured value set in both spellings, mv / not / neg / jr ..., numeric-offset transfers), one per program
+    ts += [dict(src='pseudolit', part=i, parts=16) for i in range(16)]
     return ts
 
 
@@ -238,6 +240,14 @@ def s2_programs(task):
         yield from labeldiff_programs(task['k'])
     elif k == 'shadow':
         yield from shadow_programs()
+    elif k == 'pseudolit':
+        from mc.props import c20
+        lits = c20.pseudo_literals(task['tier'])
+        for i, it in enumerate(lits):
+            if i % task['parts'] == task['part']:
+                yield [it]
+                if i % 7 == 0:
+                    yield [progs.I('addi', rd=8, rs1=8, imm=1), it, progs.I('add', rd=5, rs1=6, rs2=7)]
     else:
         gen = symbolic_programs() if k == 'symbolic' else near_label_programs()
         for i, p in enumerate(gen):
